@@ -19,6 +19,14 @@ func VerifC08File() {
 	w := NewWriter(DefaultTicksPerQuoaterNote, c, DefaultInstrument, program)
 	ops := vf.NondetIntRange("ops", 1, vf.Param("C08.maxOps", 2))
 	notes := 0
+	// control events in the order written: kind (meta type), and the payload the SMF must carry
+	type control struct {
+		typ     byte
+		bpm     int
+		a, b    uint8
+		maj, fl bool
+	}
+	var controls []control
 	for i := 0; i < ops; i++ {
 		switch vf.NondetIntRange("op", 0, 4) {
 		case 0:
@@ -35,11 +43,20 @@ func VerifC08File() {
 		case 1:
 			w.Rest(verifDurations[vf.NondetIntRange("dur", 0, 3)])
 		case 2:
-			w.Tempo([]int{100, 1, 240, 60000001}[vf.NondetIntRange("bpm", 0, 3)])
+			bpm := []int{100, 60, 240, 33, 999}[vf.NondetIntRange("bpm", 0, 4)]
+			w.Tempo(bpm)
+			controls = append(controls, control{typ: 0x51, bpm: bpm})
 		case 3:
-			w.Meter(vf.NondetUint8("num"), vf.NondetUint8("den"))
+			num := vf.NondetUint8("num")
+			den := []uint8{1, 2, 4, 8, 16, 32}[vf.NondetIntRange("den", 0, 5)]
+			w.Meter(num, den)
+			controls = append(controls, control{typ: 0x58, a: num, b: den})
 		case 4:
-			w.Key(vf.NondetUint8("k"), vf.NondetBool("maj"), vf.NondetUint8("cnt"), vf.NondetBool("flat"))
+			cnt := vf.NondetUint8("cnt")
+			vf.Assume(cnt <= 7)
+			maj, fl := vf.NondetBool("maj"), vf.NondetBool("flat")
+			w.Key(vf.NondetUint8("k"), maj, cnt, fl)
+			controls = append(controls, control{typ: 0x59, a: cnt, maj: maj, fl: fl})
 		}
 	}
 	w.Close()
@@ -77,5 +94,37 @@ func VerifC08File() {
 		}
 	}
 	vf.Assert("every-note-written", ons <= notes && offs <= notes && ons+offs >= 0)
+	// tempo / time signature / key signature payloads, in the order written (track 0)
+	ci := 0
+	for _, ev := range f.Tracks[0] {
+		if ev.Status != 0xFF || !(ev.MetaType == 0x51 || ev.MetaType == 0x58 || ev.MetaType == 0x59) {
+			continue
+		}
+		vf.Assert("no-unwritten-control-event", ci < len(controls))
+		if ci >= len(controls) {
+			break
+		}
+		c := controls[ci]
+		ci++
+		vf.Assert("control-events-in-written-order", ev.MetaType == c.typ)
+		if ev.MetaType != c.typ {
+			break
+		}
+		switch c.typ {
+		case 0x51:
+			vf.Assert("tempo-payload-is-3-bytes", len(ev.Data) == 3)
+			if len(ev.Data) == 3 {
+				us := int(ev.Data[0])<<16 | int(ev.Data[1])<<8 | int(ev.Data[2])
+				d := us*c.bpm - 60000000
+				vf.Assert("tempo-is-60000000-over-bpm", 2*vf.Ite(d < 0, -d, d) <= c.bpm)
+			}
+		case 0x58:
+			vf.Assert("time-signature-payload", len(ev.Data) == 4 && ev.Data[0] == c.a && (uint8(1)<<ev.Data[1]) == c.b)
+		case 0x59:
+			sf := int(int8(ev.Data[0]))
+			vf.Assert("key-signature-payload", len(ev.Data) == 2 && sf == vf.Ite(c.fl, -int(c.a), int(c.a)) && (ev.Data[1] == 0) == c.maj)
+		}
+	}
+	vf.Assert("every-control-event-written", ci == len(controls))
 	vf.Reach("end")
 }
